@@ -314,6 +314,35 @@ def raceWriteNewTerm (cfg : Cfg) (locked : Bool) (w : World) (l : Nat) (id : Nat
       (setNode w' l { n with log := n.log ++ [{ term := ln.term, id := id }] }, .ok h)
     | r => r
 
+/-- an entry of the leader `l` has been appended by the follower `f`, whose sync goroutine has not yet run,
+    when a NewTerm request for `f` is served. `synced` = fact: NewTerm syncs the WAL before it reads the head.
+    The acknowledgement of that entry does not reach the leader (the stream is closed by the new term).
+    Returns the head the follower reports; "norace" (`none`) when the follower does not take the entry. -/
+def raceAppendNewTerm (cfg : Cfg) (synced : Bool) (w : World) (l f : Nat) (id : Nat) (t : Int) :
+    World × Option (Except Err (Int × Int)) :=
+  let ln0 := getNode w l
+  if ln0.ctrl ≠ .leaderC ∨ ln0.status ≠ .leader ∨ (getNode w f).ctrl ≠ .followerC then (w, none) else
+  let w1 := (write cfg w l id).1
+  let ln := getNode w1 l
+  let fn := getNode w1 f
+  let e : Entry := { term := ln.term, id := id }
+  if fn.log.getLast? ≠ some e ∨ fn.term ≠ ln.term then
+    -- the follower did not take it (cut off, or of another term): no race, the write stays
+    (w1, none)
+  else
+    let cs := ln.cursors.map fun c => if c.1 = f then (c.1, c.2 - 1) else c
+    let cm := quorumCommit ln0.rf ln0.commit ((ln.log.length : Int) - 1) cs
+    let w2 := setNode w1 l { ln with cursors := cs, commit := cm }
+    if synced then
+      let r := newTerm w2 f t
+      (r.1, some r.2)
+    else
+      match newTerm (setNode w2 f { fn with log := fn.log.dropLast }) f t with
+      | (w', .ok h) =>
+        let n := getNode w' f
+        (setNode w' f { n with log := n.log ++ [e] }, some (.ok h))
+      | (_, .error err) => (w2, some (.error err))
+
 /-- a process restart: the controllers are gone, the storage stays -/
 def restart (w : World) (i : Nat) : World :=
   let n := getNode w i
